@@ -47,6 +47,8 @@ KEYS = {
     "g.d": ("dict_str_int", {}),
     "u": ("union_int_list", [1]),  # a Union with a scalar member before the list member: values assigned are lists, 'u+' appends
     "my_l": ("list_int", [0]),  # declared as --my-l: option name with a dash, key my_l
+    "dg.u": ("int", 1),  # dg: a class group (dataclass D) - the group has a config option of its own, --dg <file or string>
+    "dg.w": ("list_int", [1, 2]),
 }
 OPT = {"my_l": "my-l"}  # spelling of the option on the command line / in the declaration, where it differs from the key
 APPENDABLE = ("list_int", "union_int_list")
@@ -181,12 +183,26 @@ def generate(rng, tier):
             else:
                 argv += ["--" + OPT.get(k, k), tv]
         elif c < 0.6:
-            k = r.choice(["l", "g.l", "l", "g.l", "u", "my_l"])
+            k = r.choice(["l", "g.l", "l", "g.l", "u", "my_l", "dg.w"])
             v = r.randint(1, 9) if r.random() < 0.6 else [r.randint(1, 9) for _ in range(r.randint(0, 2))]
             if r.random() < 0.8:
                 argv.append("--%s+=%s" % (OPT.get(k, k), text(v)))
             else:
                 argv += ["--%s+" % OPT.get(k, k), text(v)]
+        elif c < 0.66:
+            # a config for the group alone, at its position on the command line (text or file; 'w+' appends)
+            gd = {}
+            if r.random() < 0.6:
+                gd["u"] = r.randint(2, 99)
+            if r.random() < 0.7:
+                v = [r.randint(1, 9) for _ in range(r.randint(0, 2))]
+                gd["w+" if r.random() < 0.5 else "w"] = v
+            if r.random() < 0.5:
+                fn = "run/grp%d.yaml" % i
+                files[fn] = json.dumps(gd)
+                argv += ["--dg", os.path.basename(fn)]
+            else:
+                argv += ["--dg", json.dumps(gd)]
         elif c < 0.72:
             argv.append("--%s.%s=%d" % (r.choice(["d", "d", "g.d"]), r.choice("pqr"), r.randint(1, 9)))
         else:
@@ -327,6 +343,15 @@ def argv_sources(sc, cwd):
     for tok in it:
         if "=" in tok and tok.startswith("--") and not tok.startswith("--cfg"):
             k, v = tok[2:].split("=", 1)
+        elif tok == "--dg":
+            v = next(it)
+            if v.lstrip().startswith("{"):
+                d = load_doc(v)
+            else:
+                with open(os.path.join(cwd, v)) as fh:
+                    d = load_doc(fh.read())
+            out.append(("gcfg", {"dg": d}))
+            continue
         elif tok == "--cfg":
             v = next(it)
             if v.lstrip().startswith("{"):
@@ -379,10 +404,14 @@ def fold(sc, root, cwd, variant=None, listing=None):
     st = {k: (None if nodef else copy.deepcopy(d)) for k, (t, d) in KEYS.items()}
     touched = {}
 
+    deferred = []
+
     def app(src, origin):
-        if src[0] in ("dcf", "cfg"):
+        if src[0] in ("dcf", "cfg", "gcfg"):
             for k, v in flatten(src[1]).items():
-                if k.endswith("+") and k[:-1] in st:
+                if src[0] == "gcfg" and k.endswith("+") and "group-config-append-deferred" in vs:
+                    deferred.append(("app", k[:-1], v if isinstance(v, list) else [v]))
+                elif k.endswith("+") and k[:-1] in st:
                     if "env-config-append-as-assign" in vs and origin == "env":
                         app(("set", k[:-1], v if isinstance(v, list) else [v]), origin)
                     else:
@@ -451,17 +480,20 @@ def fold(sc, root, cwd, variant=None, listing=None):
             seq = list(reversed(seq))
         for s in seq:
             app(s, "argv" if asrc else "direct")
+    for s in deferred:
+        app(s, "argv")
     return st, touched, notes, on
 
 
-VARIANTS = ["dcf-relative-to-parsed-file-dir", "env-config-append-as-assign", "dcf-all-dropped", "dcf-duplicates-dropped", "dcf-listing-order", "dcf-reversed", "dcf-patterns-reversed", "env-ignored", "env-forced", "env-mapping-ignored-for-process-env", "env-vars-before-env-cfg", "env-after-method-source", "argv-right-to-left", "append-as-assign", "dict-item-as-assign"]
+VARIANTS = ["group-config-append-deferred", "dcf-relative-to-parsed-file-dir", "env-config-append-as-assign", "dcf-all-dropped", "dcf-duplicates-dropped", "dcf-listing-order", "dcf-reversed", "dcf-patterns-reversed", "env-ignored", "env-forced", "env-mapping-ignored-for-process-env", "env-vars-before-env-cfg", "env-after-method-source", "argv-right-to-left", "append-as-assign", "dict-item-as-assign"]
 
 
 # ---------------------------------------------------------------------------------------------------
 
 
 def build_parser(sc):
-    args = [{"k": "cfg"}] + [{"k": "arg", "name": OPT.get(k, k), "type": t, "default": copy.deepcopy(d)} for k, (t, d) in KEYS.items()]
+    args = [{"k": "cfg"}] + [{"k": "arg", "name": OPT.get(k, k), "type": t, "default": copy.deepcopy(d)} for k, (t, d) in KEYS.items() if not k.startswith("dg.")]
+    args.append({"k": "class", "cls": "D", "name": "dg"})
     opts = {"exit_on_error": False, "default_env": sc["parser"]["default_env"], "default_config_files": list(sc["parser"]["dcf"])}
     if sc["parser"].get("env_prefix") is not None:
         opts["env_prefix"] = sc["parser"]["env_prefix"]
@@ -590,8 +622,11 @@ def execute(sc, ctx):
         ctx.nontrivial = bool(multi)
         ctx.notes["srcs"] = [sc["method"], sorted(notes), sorted(set(key_kind(k) for k in touched)), sorted(set(x for v in touched.values() for x in v)), on]
         ctx.record(sc["method"], o.brief())
+        # input feature of a recorded deviation: a group-level config with a 'key+' entry while defaults are off
+        gctx = "group-config-append-with-defaults-off" if "_nodef" in sc["method"] and any(s_[0] == "gcfg" and any(k.endswith("+") for k in flatten(s_[1])) for s_ in argv_sources(sc, cwd)) else "-"
         if o.kind != "ret":
-            ctx.violation("fold-mismatch", {"model": "parse-failed", "exc": o.brief()}, "all sources are well-formed, yet %s failed: %s %s" % (sc["method"], o.brief(), (o.text or o.stderr)[:400]))
+            why = "append-key-of-group-config-not-resolved" if "does not accept nested key" in (o.text or "") and "+'" in (o.text or "") else "other"
+            ctx.violation("fold-mismatch", {"model": "parse-failed", "exc": o.brief(), "why": why, "ctx": gctx}, "all sources are well-formed, yet %s failed: %s %s" % (sc["method"], o.brief(), (o.text or o.stderr)[:400]))
             return
         got = {k: _plain(o.value.get(k)) for k in KEYS}
         bad = [k for k in KEYS if got[k] != exp[k]]
@@ -615,7 +650,7 @@ def execute(sc, ctx):
         k0 = bad[0]
         ctx.violation(
             "fold-mismatch",
-            {"model": model, "key": key_kind(k0)},
+            {"model": model, "key": key_kind(k0), "ctx": gctx},
             "%s: key %s = %r, reference fold says %r (sources touching it: %s); counter-model: %s; all differing keys: %s" % (sc["method"], k0, got[k0], exp[k0], sorted(touched.get(k0, [])), model, bad),
         )
 
